@@ -82,6 +82,12 @@ Proof. reflexivity. Qed.
 Theorem nondet_calls_empty : nondet_calls = [].
 Proof. reflexivity. Qed.
 
+(** no cache decorator, no module-level container mutated by a function, no class attribute written through the
+    class, no instance attribute written outside __init__ that has not been reviewed: the output of a
+    serialisation cannot depend on earlier serialisations through such state *)
+Theorem state_sites_empty : state_sites = [].
+Proof. reflexivity. Qed.
+
 (** every statement in the table is proved (the record carries the proof) *)
 Theorem table_statements_hold : Forall (fun m => m_statement m) table.
 Proof. apply Forall_forall. intros m _. exact (m_proof m). Qed.
